@@ -154,6 +154,9 @@ def page_classes():
     # a request WITH A BODY (--post-data) answered with a redirect: 307 / 308 replay the request, 302 turns it into a GET
     for code in (b'302', b'307', b'308'):
         c['rd_%s_post' % code.decode()] = _p(redirect(b'http://a.test/p3', code), argv=['--post-data', 'x=1'])
+    # the download directory (-P) does not exist yet when the first answer - a redirect, nothing to save - arrives
+    c['rd_new_directory'] = _p(redirect(b'http://a.test/p3'), argv=['-P', 'new/dir'])
+    c['ok_new_directory'] = _p(resp(), argv=['-P', 'new/dir2', '--delete-after'])
     # redirects to URLs that no HTTP client can fetch
     c['rd_mailto'] = _p(redirect(b'mailto:webmaster@b.test'))
     c['rd_data_url'] = _p(redirect(b'data:text/html,hello'))
